@@ -63,7 +63,10 @@ theorem generate_flow :
        "return generateProperty(writer, set, p, propert…", "}", "call meta.ForEachMethodAndSignal", "if err != nil {",
        "return fmt.Errorf(\"generate proxy object %s: %s…", "}", "call fmt.Fprintf", "}", "call generateStructures", "if err != nil {",
        "return fmt.Errorf(\"generate structures: %s\", er…", "}", "return nil"] ∧
-    Gen.IdlPackage.generateStructuresFlow = ["range Types {", "if ok {", "call generateStructure", "}", "}", "return nil"] := ⟨rfl, rfl⟩
+    Gen.IdlPackage.generateStructuresFlow = ["range Types {", "if ok {", "call generateStructure", "}", "}", "return nil"] ∧
+    -- a struct block (`printStruct`): the header, per member its name as it is and `SignatureIDL()` of its type, `end`
+    Gen.IdlPackage.generateStructureFlow =
+      ["call fmt.Fprintf", "range {", "call mem.Type.SignatureIDL", "call fmt.Fprintf", "}", "call fmt.Fprintf", "return nil"] := ⟨rfl, rfl, rfl⟩
 
 /-- `CleanVarName` (`cleanVarName`) and the keywords it steps around (`goKeywords`) -/
 theorem clean_var_name :
